@@ -1,4 +1,7 @@
+#[cfg(not(prqlc_verif))]
 use std::collections::HashSet;
+#[cfg(prqlc_verif)]
+use prqlc_parser::verif_hash::HashSet;
 use std::fmt::{Debug, Display, Formatter};
 
 use enum_as_inner::EnumAsInner;
